@@ -89,3 +89,56 @@ Example C15_example :
   map view_of (run_history 20 [3;3;1;3;0;1;2;2]%N 4%N None [(2,true);(0,true);(3,true);(3,false);(1,true);(4,true)])
   = [Some 0; Some 3; Some 2; Some 2; Some 1; None]%N.
 Proof. vm_compute. reflexivity. Qed.
+
+(** ---- non-vacuity of the hypotheses (audit) ---- *)
+(** the stream of [C15_example] (forced collisions, first-appearance order [3;1;0;2]), range 4, and a
+    NON-EMPTY cache that has consumed three draws: hypotheses of [C15_in_range], [C15_live],
+    [C15_model_ok], [C15_ok_sound], [C15_ref_ok_sound], [C15_injective] *)
+Definition C15_nv_s : list N := [3; 3; 1; 3; 0; 1; 2; 2]%N.
+Definition C15_nv_reqs : list (nat * bool) := [(2, true); (0, true); (3, true); (3, false); (1, true); (4, true)].
+Definition C15_nv_cache : cache := Some (3, [3; 1]%N).
+
+Example C15_hyps_nonvacuous :
+  Forall (fun x => (x < 4)%N) C15_nv_s /\ InvC C15_nv_s C15_nv_cache
+  /\ (N.of_nat 3 < 4)%N /\ 3 < length (dedup C15_nv_s)
+  /\ spec C15_nv_s 3 = Some 2%N /\ spec C15_nv_s 1 = Some 1%N
+  /\ Forall (fun r => r <> Exhausted) (run_history 20 C15_nv_s 4%N C15_nv_cache C15_nv_reqs)
+  /\ map view_of (run_history 20 C15_nv_s 4%N C15_nv_cache C15_nv_reqs) = [Some 0; Some 3; Some 2; Some 2; Some 1; None]%N
+  /\ ok_answers C15_nv_s 4%N C15_nv_reqs [Some 0; Some 3; Some 2; Some 2; Some 1; None]%N = true
+  /\ ref_ok C15_nv_s 4%N C15_nv_reqs [Some 0; Some 3; Some 2; Some 2; Some 1; None]%N = true
+  /\ ok_answers C15_nv_s 4%N C15_nv_reqs [Some 0; Some 3; Some 3; Some 2; Some 1; None]%N = false.
+Proof.
+  split; [repeat (apply Forall_cons; [reflexivity|]); apply Forall_nil|].
+  split; [split; [reflexivity | simpl; repeat constructor]|].
+  split; [reflexivity|].
+  split; [vm_compute; repeat constructor|].
+  split; [reflexivity|]. split; [reflexivity|].
+  split; [vm_compute; repeat (apply Forall_cons; [intro HH; discriminate HH|]); apply Forall_nil|].
+  repeat split; vm_compute; reflexivity.
+Qed.
+
+Example C15_live_nonvacuous :
+  exists v c', get_sub_seed (S (length C15_nv_s)) C15_nv_s 4%N 3 C15_nv_cache = Answer v c'.
+Proof.
+  destruct C15_hyps_nonvacuous as (_ & H1 & H2 & H3 & _).
+  exact (C15_live _ _ _ _ H1 H2 H3).
+Qed.
+
+Example C15_model_ok_nonvacuous :
+  ok_answers C15_nv_s 4%N C15_nv_reqs (map view_of (run_history 20 C15_nv_s 4%N C15_nv_cache C15_nv_reqs)) = true.
+Proof.
+  destruct C15_hyps_nonvacuous as (H0 & H1 & _ & _ & _ & _ & H2 & _).
+  exact (C15_model_ok 20 _ _ H0 _ _ H1 H2).
+Qed.
+
+(** [C15_first_appearance] at a position after a repeated draw (p = 4: the 4th draw is the 3rd distinct value),
+    [C15_nodup_prefix] on the duplicate-free prefix of length 3 *)
+Example C15_first_appearance_nonvacuous :
+  let s := [5; 7; 2; 7; 9]%N in
+  nth_error s 4 = Some 9%N /\ ~ In 9%N (firstn 4 s) /\ length (dedup (firstn 4 s)) = 3 /\ spec s 3 = Some 9%N
+  /\ NoDup (firstn (S 2) s) /\ spec s 2 = nth_error s 2.
+Proof.
+  cbv zeta. split; [reflexivity|]. split; [simpl; intuition discriminate|].
+  split; [reflexivity|]. split; [reflexivity|].
+  split; [simpl; repeat constructor; simpl; intuition discriminate | reflexivity].
+Qed.
